@@ -1,6 +1,7 @@
 SPECIFICATION Spec
 CONSTANT MaxV = 6
 CONSTANT M0s = {2, 3, 4, 5, 6}
+CONSTANT MaxUses = 1
 CONSTANT PinnedDedup = FALSE
 INVARIANT C09_Cliques
 INVARIANT C09_Disjoint
